@@ -436,7 +436,7 @@ def to_rx(node, slash_escape=False):
     if k == "lit":
         return "".join(_esc_char(c) for c in node.s)
     if k == "casei":
-        return "(?i:%s)" % node.s
+        return "(?i:%s)" % "".join(c if c.isalnum() or c == " " else "\\" + c for c in node.s)
     if k == "dot":
         return "(?s:.)" if node.dotall else "."
     if k == "cls":
@@ -507,6 +507,9 @@ def to_lark(node, top=True):
         key = {"chunks": "substring_chunks", "words": "substring_words", "chars": "substring_chars"}[node.mode]
         val = node.chunks if node.mode == "chunks" else node.src
         return "%%regex { %s: %s }" % (json.dumps(key), json.dumps(val, ensure_ascii=False))
+    if k == "casei" and getattr(node, "flag_string", False):
+        # Lark string literal with the i flag: the characters are literal, whatever they are
+        return _lark_str(node.s) + "i"
     if is_plain(node) and not lark_level:
         if k == "lit" and all(c in _SAFE for c in node.s):
             return _lark_str(node.s)
@@ -547,7 +550,7 @@ def to_pyre(node):
     if k == "lit":
         return re.escape(node.s)
     if k == "casei":
-        return "(?i:%s)" % node.s
+        return "(?i:%s)" % re.escape(node.s)
     if k == "dot":
         return "(?s:.)" if node.dotall else "."
     if k == "cls":
@@ -659,6 +662,23 @@ def gen_plain(rng, depth=0, allow_unicode=True):
     return Rep(x, m, m)
 
 
+META = ".|+*?()[]{}^$"
+
+
+def flag_strings(node, rng):
+    """turn some case-insensitive leaves into Lark flagged string literals ("v1.0"i), half of them containing regex metacharacters"""
+    if node.kind == "casei" and rng.random() < 0.7:
+        node.flag_string = True
+        if rng.random() < 0.6:
+            pos = rng.randint(0, len(node.s))
+            node.s = node.s[:pos] + rng.choice(META) + node.s[pos:]
+    for x in getattr(node, "xs", []) or []:
+        flag_strings(x, rng)
+    if hasattr(node, "x"):
+        flag_strings(node.x, rng)
+    return node
+
+
 def mark_lark(node, rng):
     """randomly decide which cat/alt/rep nodes are written with Lark-level syntax"""
     if node.kind in ("cat", "alt", "rep") and rng.random() < 0.6:
@@ -675,7 +695,7 @@ def gen_case(rng, idx):
         node = gen_plain(rng)
         return dict(kind="regex", text=to_rx(node), node=node)
     if r < 0.68:
-        node = mark_lark(gen_plain(rng), rng)
+        node = flag_strings(mark_lark(gen_plain(rng), rng), rng)
         return dict(kind="lark", text="start: T\nT: %s\n" % to_lark(node), node=node)
     if r < 0.86:
         pos = gen_plain(rng, 1, allow_unicode=rng.random() < 0.5)
